@@ -77,7 +77,7 @@ func (c *compiler) toIrType(ddpType ddptypes.Type) ddpIrType {
 		case ddptypes.VARIABLE:
 			return c.ddpanylist
 		default:
-			return c.structTypes[underlying.(*ddptypes.StructType)].listType
+			return c.irStructType(underlying.(*ddptypes.StructType)).listType
 		}
 	} else {
 		switch ddpType {
@@ -98,9 +98,21 @@ func (c *compiler) toIrType(ddpType ddptypes.Type) ddpIrType {
 		case ddptypes.VoidType{}:
 			return c.void
 		default: // struct types
-			return c.structTypes[ddpType.(*ddptypes.StructType)]
+			return c.irStructType(ddpType.(*ddptypes.StructType))
 		}
 	}
+}
+
+// returns the ir type of a struct type
+// struct types that were not declared yet (types of another module that is not imported by this one,
+// which are used in the body of a generic function instantiated here) are declared on demand
+func (c *compiler) irStructType(structType *ddptypes.StructType) *ddpIrStructType {
+	if irType, exists := c.structTypes[structType]; exists && irType != nil {
+		return irType
+	}
+	delete(c.structTypes, structType)
+	c.defineOrDeclareStructType(structType)
+	return c.structTypes[structType]
 }
 
 // used to handle possible reference parameters
